@@ -309,6 +309,14 @@ async fn cmd_plans(input: Value) {
 }
 
 async fn cmd_planrun(input: Value) {
+    // {"batches": [{"setup": [...], "plans": [...]}, ...]}: each batch runs on a fresh in-memory database
+    if let Some(batches) = input["batches"].as_array() {
+        for (i, b) in batches.iter().enumerate() {
+            println!("{}", json!({"batch": i}));
+            Box::pin(cmd_planrun(b.clone())).await;
+        }
+        return;
+    }
     let sess = Session::new();
     sess.setup(&strs(&input["setup"])).await;
     let opt = sess.optimizer(&json!({}));
